@@ -7,6 +7,7 @@ import (
 	"flag"
 	"fmt"
 	"os"
+	"regexp"
 	"sort"
 	"strconv"
 	"strings"
@@ -36,7 +37,7 @@ func envInt(name string, def int) int {
 
 type KnownFinding struct {
 	Prop     string `json:"property"`
-	Rule     string `json:"rule"`
+	Rule     string `json:"rule_regex"`
 	Contains string `json:"detail_contains"`
 	What     string `json:"what"`
 	Status   string `json:"status"` // open | fixed
@@ -65,7 +66,7 @@ func loadKnown() []KnownFinding {
 func matchKnown(known []KnownFinding, v Violation) *KnownFinding {
 	for i := range known {
 		k := &known[i]
-		if k.Prop == v.Prop && k.Rule == v.Rule && strings.Contains(v.Detail, k.Contains) {
+		if k.Prop == v.Prop && regexp.MustCompile(k.Rule).MatchString(v.Rule) && strings.Contains(v.Detail, k.Contains) {
 			return k
 		}
 	}
